@@ -90,6 +90,11 @@ func (h c15H) Filelist(r *sftp.Request) (sftp.ListerAt, error) {
 	return c15One{c16Info{name: "f", idx: int(h.s.statSize())}}, nil
 }
 
+// c15HPut is a FilePut handler WITHOUT OpenFileWriter: the request server then serves an O_RDWR open as a write handle.
+type c15HPut struct{ s *c15Store }
+
+func (h c15HPut) Filewrite(*sftp.Request) (io.WriterAt, error) { return h.s, nil }
+
 type c15One struct{ fi os.FileInfo }
 
 func (o c15One) ListAt(ls []os.FileInfo, off int64) (int, error) {
@@ -146,17 +151,26 @@ type c15Op struct {
 	Err       string
 }
 
-// Big: operations up to the largest single-packet size (32768 bytes) on a file of several packets, so that a
-// server that answers a maximal READ short (the client then completes it with a second request) is observed.
+// Big: operations up to the largest single-packet size on a file of several packets, so that a server that answers
+// a maximal READ short (the client then completes it with a second request) is observed.  The single-packet size is
+// what the two sides are configured with: a WriteAt is one WRITE packet up to the client's max packet, a ReadAt is
+// one READ answered by one DATA up to min(client max packet, server max-tx-packet).
 type c15Cfg struct {
-	Big        bool   `json:"big,omitempty"`
-	Server     string `json:"server"` // rs | os
-	Alloc      bool   `json:"allocator"`
-	Goroutines int    `json:"goroutines"`
-	OpsEach    int    `json:"ops_each"`
-	Handles    int    `json:"handles"`
-	FileSize   int    `json:"file_size"`
-	Seed       int64  `json:"seed"`
+	Big    bool   `json:"big,omitempty"`
+	Server string `json:"server"` // rs | os
+	Alloc  bool   `json:"allocator"`
+	// request server only: FilePut handler without OpenFileWriter (an O_RDWR handle is then a write handle)
+	NoOpenFileWriter bool `json:"no_open_file_writer,omitempty"`
+	// WithRSMaxTxPacket / WithMaxTxPacket (0 = option not given) and MaxPacketUnchecked (0 = option not given)
+	SrvMaxTx int `json:"server_max_tx_packet,omitempty"`
+	CliMax   int `json:"client_max_packet,omitempty"`
+	// open mode of each handle: r (O_RDONLY) | w (O_WRONLY) | rw (O_RDWR); missing = rw
+	Kinds      []string `json:"handle_kinds,omitempty"`
+	Goroutines int      `json:"goroutines"`
+	OpsEach    int      `json:"ops_each"`
+	Handles    int      `json:"handles"`
+	FileSize   int      `json:"file_size"`
+	Seed       int64    `json:"seed"`
 }
 
 // c15Run executes one concurrent history and returns the client-side ops with their matched stamps.
@@ -172,12 +186,23 @@ func c15Run(cfg c15Cfg) (init []byte, ops []c15Op, problem string) {
 	var err error
 	path := "/f"
 	var cleanup func()
+	var copts []sftp.ClientOption
+	if cfg.CliMax > 0 {
+		copts = append(copts, sftp.MaxPacketUnchecked(cfg.CliMax))
+	}
 	if cfg.Server == "rs" {
 		var so []sftp.RequestServerOption
 		if cfg.Alloc {
 			so = append(so, sftp.WithRSAllocator())
 		}
-		pair, err = vhStartRS(sftp.Handlers{FileGet: c15H{store}, FilePut: c15H{store}, FileCmd: c15H{store}, FileList: c15H{store}}, nil, so...)
+		if cfg.SrvMaxTx > 0 {
+			so = append(so, sftp.WithRSMaxTxPacket(uint32(cfg.SrvMaxTx)))
+		}
+		hs := sftp.Handlers{FileGet: c15H{store}, FilePut: c15H{store}, FileCmd: c15H{store}, FileList: c15H{store}}
+		if cfg.NoOpenFileWriter {
+			hs.FilePut = c15HPut{store}
+		}
+		pair, err = vhStartRS(hs, copts, so...)
 	} else {
 		dir, e := os.MkdirTemp("", "vh-c15-")
 		if e != nil {
@@ -190,7 +215,10 @@ func c15Run(cfg c15Cfg) (init []byte, ops []c15Op, problem string) {
 		if cfg.Alloc {
 			so = append(so, sftp.WithAllocator())
 		}
-		pair, err = vhStartOS(nil, so...)
+		if cfg.SrvMaxTx > 0 {
+			so = append(so, sftp.WithMaxTxPacket(uint32(cfg.SrvMaxTx)))
+		}
+		pair, err = vhStartOS(copts, so...)
 	}
 	if err != nil {
 		return nil, nil, err.Error()
@@ -201,13 +229,26 @@ func c15Run(cfg c15Cfg) (init []byte, ops []c15Op, problem string) {
 			cleanup()
 		}
 	}()
+	// handles of every kind; canRead/canWrite: what the server serves through the handle
 	var files []*sftp.File
+	var canRead, canWrite []int
 	for i := 0; i < cfg.Handles; i++ {
-		f, err := pair.Client.OpenFile(path, os.O_RDWR)
+		kind := "rw"
+		if i < len(cfg.Kinds) {
+			kind = cfg.Kinds[i]
+		}
+		flag := map[string]int{"r": os.O_RDONLY, "w": os.O_WRONLY, "rw": os.O_RDWR}[kind]
+		f, err := pair.Client.OpenFile(path, flag)
 		if err != nil {
 			return nil, nil, "open: " + err.Error()
 		}
 		files = append(files, f)
+		if kind == "r" || (kind == "rw" && !(cfg.Server == "rs" && cfg.NoOpenFileWriter)) {
+			canRead = append(canRead, i)
+		}
+		if kind != "r" {
+			canWrite = append(canWrite, i)
+		}
 	}
 	if cfg.Server == "os" {
 		// the server issues handles "1","2",…: wrap each open file
@@ -215,6 +256,11 @@ func c15Run(cfg c15Cfg) (init []byte, ops []c15Op, problem string) {
 			sftp.VerifSwapFile(pair.OS, fmt.Sprint(i), func(f sftp.VerifFile) sftp.VerifFile { return c15File{f, store} })
 		}
 	}
+	store.mu.Lock()
+	store.log = nil // steps caused by opening (none expected) are not operations of the history
+	store.mu.Unlock()
+	// single-packet sizes of this configuration
+	maxW, maxR := c15Limits(cfg)
 	// plan: unique (off,len) per read, unique data per write
 	type plan struct {
 		kind byte
@@ -223,19 +269,49 @@ func c15Run(cfg c15Cfg) (init []byte, ops []c15Op, problem string) {
 		data []byte
 		h    int
 	}
+	// sizes at and just below the single-packet size, and around the default size when the configured one is larger
+	bigSize := func(max int) int {
+		switch x := rnd.Intn(8); {
+		case x < 2:
+			return max
+		case x < 3:
+			return max - 1
+		case x < 5:
+			return max - rnd.Intn(16)
+		case x < 6 && max > 32768:
+			return 32769 + rnd.Intn(16)
+		case x < 7 && max > 32768:
+			return 32769 + rnd.Intn(max-32768)
+		case x < 7:
+			return max/8 + rnd.Intn(max/2)
+		default:
+			return max - 13 - rnd.Intn(3)
+		}
+	}
 	usedRead := map[[2]int]bool{}
 	plans := make([][]plan, cfg.Goroutines)
 	opid := 0
 	for g := range plans {
 		for k := 0; k < cfg.OpsEach; k++ {
 			opid++
-			p := plan{h: rnd.Intn(cfg.Handles)}
-			switch x := rnd.Intn(10); {
+			var p plan
+			x := rnd.Intn(10)
+			if x < 4 && len(canWrite) == 0 {
+				x = 4 + rnd.Intn(6)
+			}
+			if x >= 4 && x < 9 && len(canRead) == 0 {
+				x = []int{0, 9}[rnd.Intn(2)]
+				if len(canWrite) == 0 {
+					x = 9
+				}
+			}
+			switch {
 			case x < 4:
 				p.kind = 'w'
+				p.h = canWrite[rnd.Intn(len(canWrite))]
 				p.n = 2 + rnd.Intn(10)
 				if cfg.Big {
-					p.n = []int{32768, 32767, 20000, 32768 - 13, 4096}[rnd.Intn(5)]
+					p.n = bigSize(maxW)
 				}
 				p.off = int64(rnd.Intn(cfg.FileSize - p.n + 1))
 				p.data = make([]byte, p.n)
@@ -245,10 +321,11 @@ func c15Run(cfg c15Cfg) (init []byte, ops []c15Op, problem string) {
 				}
 			case x < 9:
 				p.kind = 'r'
+				p.h = canRead[rnd.Intn(len(canRead))]
 				for tries := 0; ; tries++ {
 					p.n = 1 + rnd.Intn(16)
 					if cfg.Big {
-						p.n = 32768 - rnd.Intn(16)
+						p.n = bigSize(maxR)
 					}
 					p.off = int64(rnd.Intn(cfg.FileSize - p.n + 1))
 					if !usedRead[[2]int{int(p.off), p.n}] || tries > 50 {
@@ -261,6 +338,7 @@ func c15Run(cfg c15Cfg) (init []byte, ops []c15Op, problem string) {
 				usedRead[[2]int{int(p.off), p.n}] = true
 			default:
 				p.kind = 's'
+				p.h = rnd.Intn(cfg.Handles)
 			}
 			plans[g] = append(plans[g], p)
 		}
@@ -350,12 +428,80 @@ func c15Run(cfg c15Cfg) (init []byte, ops []c15Op, problem string) {
 			}
 		}
 		if found < 0 {
+			// direct atomicity oracle: a single-packet operation must reach the store as exactly ONE ReadAt/WriteAt.
+			// Look for the steps that served it piecewise: same kind, inside the operation's interval, contiguous
+			// from its offset, together covering its range (and, for a write, carrying its data).
+			if op.Kind != 's' {
+				var steps []string
+				cur, end := op.Off, op.Off+int64(op.Len)
+				for progress := true; progress && cur < end; {
+					progress = false
+					for j, ev := range log {
+						if used[j] || ev.kind != op.Kind || ev.off != cur || len(ev.data) == 0 || ev.off+int64(len(ev.data)) > end ||
+							ev.stamp < op.Call || ev.stamp > op.Ret {
+							continue
+						}
+						if op.Kind == 'w' && string(ev.data) != string(op.Data[cur-op.Off:cur-op.Off+int64(len(ev.data))]) {
+							continue
+						}
+						used[j] = true
+						steps = append(steps, fmt.Sprintf("%c off=%d len=%d stamp=%d", ev.kind, ev.off, len(ev.data), ev.stamp))
+						cur += int64(len(ev.data))
+						progress = true
+						break
+					}
+				}
+				if len(steps) >= 2 && cur == end {
+					return init, ops, fmt.Sprintf("op-split-into-steps: the single-packet operation %c off=%d len=%d (call %d, ret %d; single-packet sizes of this configuration: write %d, read %d) reached the backing store as %d separate steps [%s] instead of one atomic step",
+						op.Kind, op.Off, op.Len, op.Call, op.Ret, maxW, maxR, len(steps), strings.Join(steps, "; "))
+				}
+			}
 			return init, ops, fmt.Sprintf("no store step found for operation %c off=%d len=%d (call %d, ret %d)", op.Kind, op.Off, op.Len, op.Call, op.Ret)
 		}
 		used[found] = true
 		op.Stamp = log[found].stamp
 	}
+	// … and the store must have seen nothing else: one step per operation, no step without an operation
+	var extra []string
+	for j, ev := range log {
+		if !used[j] {
+			extra = append(extra, fmt.Sprintf("%c off=%d len=%d stamp=%d", ev.kind, ev.off, len(ev.data), ev.stamp))
+		}
+	}
+	if len(extra) > 0 {
+		n := len(extra)
+		if n > 6 {
+			extra = extra[:6]
+		}
+		return init, ops, fmt.Sprintf("extra-store-steps: %d completed operations reached the backing store as %d steps; %d steps belong to no operation: [%s]",
+			len(ops), len(log), n, strings.Join(extra, "; "))
+	}
 	return init, ops, ""
+}
+
+// c15Limits gives the largest WriteAt and ReadAt that are ONE packet each way under cfg: a write is one WRITE up to the
+// client's max packet (and the 256 KiB the servers accept per request packet: type, id, 1-byte handle, offset, length
+// precede the data); a read is one READ answered by one DATA up to min(client max packet, server max-tx-packet) (and the
+// 256 KiB the client accepts per reply: type, id, length precede the data).
+func c15Limits(cfg c15Cfg) (maxWrite, maxRead int) {
+	cli, srv := 32768, 32768
+	if cfg.CliMax > 0 {
+		cli = cfg.CliMax
+	}
+	if cfg.SrvMaxTx > srv { // smaller values are refused by the option
+		srv = cfg.SrvMaxTx
+	}
+	maxWrite, maxRead = cli, cli
+	if srv < maxRead {
+		maxRead = srv
+	}
+	if lim := 256*1024 - (1 + 4 + 4 + 1 + 8 + 4); maxWrite > lim {
+		maxWrite = lim
+	}
+	if lim := 256*1024 - (1 + 4 + 4); maxRead > lim {
+		maxRead = lim
+	}
+	return
 }
 
 func c15Line(init []byte, ops []c15Op) string {
@@ -378,7 +524,7 @@ func c15Line(init []byte, ops []c15Op) string {
 
 func checkC15(c *lib.Ctx) {
 	r := c.R
-	r.Rule = "concurrent histories of single-packet ReadAt/WriteAt within the extent and Stat (size) by 2..8 goroutines over one Client on 1..3 handles of one fixed-size file; both servers, allocator on/off; every read has a unique (offset,length), every write unique data, so each client operation is matched to the store step that served it; the stamped history is decided by the PROVED checker checkStamped (Lean, C15.checker_sound) — exact trace validation, no search; non-trivial = history with at least two overlapping operations one of which is a write"
+	r.Rule = "concurrent histories of single-packet ReadAt/WriteAt within the extent and Stat (size) by 2..8 goroutines over one Client on 1..4 handles of one fixed-size file, each handle opened O_RDONLY, O_WRONLY or O_RDWR (operations go to handles that serve them); both servers, allocator on/off, request server with and without OpenFileWriter; 8 pairs (server max-tx-packet, client max packet) from the defaults to the 256 KiB frame limit, equal and unequal; every 5th history uses operations of exactly the configured single-packet size, just below it and just above the default size, on a file of 2..3 such packets; every read has a unique (offset,length), every write unique data, so each client operation is matched to the store step that served it — direct oracle: the instrumented store sees exactly one ReadAt/WriteAt/Stat step per completed operation (an operation served piecewise is not atomic), no step without an operation; the stamped history is decided by the PROVED checker checkStamped (Lean, C15.checker_sound) — exact trace validation, no search; non-trivial = history with at least two overlapping operations one of which is a write"
 	var cfgs []c15Cfg
 	if c.Replay != "" {
 		var one c15Cfg
@@ -388,26 +534,87 @@ func checkC15(c *lib.Ctx) {
 		}
 		cfgs = []c15Cfg{one}
 	} else {
-		n := 300
+		n := 400
 		if c.Tier == "thorough" {
 			n = 6000
 		}
+		// (server max-tx-packet, client max packet): defaults, both raised, the largest pair whose replies still fit the
+		// 256 KiB frame limit, and unequal pairs (the smaller side decides what one packet is)
+		const top = 256*1024 - 9
+		pairs := [][2]int{{0, 0}, {65536, 65536}, {256 * 1024, top}, {65536, 0}, {256 * 1024, 65536}, {65536, top}, {0, 65536}, {100000, 100000}}
 		for i := 0; i < n; i++ {
-			cfgs = append(cfgs, c15Cfg{
+			cfg := c15Cfg{
 				Server: []string{"rs", "os"}[i%2], Alloc: (i/2)%2 == 1,
 				Goroutines: 2 + c.Rand.Intn(7), OpsEach: 4 + c.Rand.Intn(20), Handles: 1 + c.Rand.Intn(3),
 				FileSize: 48 + c.Rand.Intn(64), Seed: c.Rand.Int63(),
-			})
-			if i%5 == 4 {
-				k := &cfgs[len(cfgs)-1]
-				k.Big, k.FileSize, k.OpsEach = true, 3*32768+c.Rand.Intn(100), 3+c.Rand.Intn(6)
 			}
+			// i%4 = (server, allocator); with 8 pairs and every 5th history of maximal size all 32 combinations
+			// (server, allocator, pair) occur among the maximal-size histories within 160 consecutive histories
+			pr := pairs[(i/4)%len(pairs)]
+			cfg.SrvMaxTx, cfg.CliMax = pr[0], pr[1]
+			cfg.NoOpenFileWriter = cfg.Server == "rs" && (i/32)%3 == 2
+			// handles of every kind; at least one that reads and one that writes
+			for h := 0; h < cfg.Handles; h++ {
+				cfg.Kinds = append(cfg.Kinds, []string{"rw", "rw", "r", "w"}[c.Rand.Intn(4)])
+			}
+			reads, writes := false, false
+			for _, k := range cfg.Kinds {
+				reads = reads || k == "r" || (k == "rw" && !cfg.NoOpenFileWriter)
+				writes = writes || k != "r"
+			}
+			if !reads {
+				cfg.Kinds[0] = map[bool]string{true: "r", false: "rw"}[cfg.NoOpenFileWriter]
+			}
+			writes = false
+			for _, k := range cfg.Kinds {
+				writes = writes || k != "r"
+			}
+			if !writes {
+				cfg.Kinds = append(cfg.Kinds, []string{"w", "rw"}[c.Rand.Intn(2)])
+			}
+			cfg.Handles = len(cfg.Kinds)
+			if i%5 == 4 {
+				maxW, maxR := c15Limits(cfg)
+				cfg.Big, cfg.FileSize, cfg.OpsEach = true, 3*max(maxW, maxR)+c.Rand.Intn(100), 3+c.Rand.Intn(6)
+				// keep the volume of data per history (and so the checker's work) roughly constant
+				switch m := max(maxW, maxR); {
+				case m > 100000: // 256 KiB operations on two packets' worth of file
+					cfg.FileSize, cfg.Goroutines, cfg.OpsEach = 2*m+c.Rand.Intn(100), 2+c.Rand.Intn(2), 2+c.Rand.Intn(3)
+				case m > 65536:
+					cfg.FileSize, cfg.Goroutines, cfg.OpsEach = 2*m+c.Rand.Intn(100), 2+c.Rand.Intn(3), 2+c.Rand.Intn(4)
+				case m > 32768:
+					cfg.Goroutines, cfg.OpsEach = 2+c.Rand.Intn(5), 2+c.Rand.Intn(4)
+				}
+			}
+			cfgs = append(cfgs, cfg)
 		}
 	}
 	var lines []string
 	var keep []c15Cfg
+	var tRun, tCheck time.Duration
+	validated, pending := 0, 0
+	// the stamped traces are validated in batches (a trace of 256 KiB operations is several megabytes of text)
+	flush := func() bool {
+		t1 := time.Now()
+		out, err := c15Model(c, lines)
+		tCheck += time.Since(t1)
+		if err != nil {
+			r.Fail(lib.Failure{Kind: "tie", Key: "c15/model-driver", What: err.Error()})
+			return false
+		}
+		for i, o := range out {
+			if o != "ok" {
+				r.Fail(lib.Failure{Kind: "oracle", Key: "history/not-linearizable", What: "stamped history rejected by the proved checker: " + o, Input: keep[i], Actual: c15Short(lines[i])})
+			}
+		}
+		validated += len(lines)
+		lines, keep, pending = nil, nil, 0
+		return true
+	}
 	for _, cfg := range cfgs {
+		tr := time.Now()
 		init, ops, problem := c15Run(cfg)
+		tRun += time.Since(tr)
 		overlap := false
 		for i := range ops {
 			for j := range ops {
@@ -420,8 +627,17 @@ func checkC15(c *lib.Ctx) {
 		r.Case(line, overlap)
 		r.Hist(fmt.Sprintf("%s-alloc=%v", cfg.Server, cfg.Alloc))
 		r.Hist(fmt.Sprintf("goroutines-%d", cfg.Goroutines))
+		maxW, maxR := c15Limits(cfg)
+		r.Hist(fmt.Sprintf("single-packet-write=%d-read=%d", maxW, maxR))
+		if cfg.Server == "rs" {
+			r.Hist(fmt.Sprintf("rs-open-file-writer=%v", !cfg.NoOpenFileWriter))
+		}
+		for _, k := range cfg.Kinds {
+			r.Hist("handle-" + k)
+		}
 		if cfg.Big {
 			r.Hist("max-packet-sized-operations")
+			r.Hist(fmt.Sprintf("max-packet-sized-operations/%s/read=%d", cfg.Server, maxR))
 		}
 		if overlap {
 			r.Hist("has-overlapping-write")
@@ -443,15 +659,80 @@ func checkC15(c *lib.Ctx) {
 		}
 		lines = append(lines, line)
 		keep = append(keep, cfg)
-	}
-	out, err := c.Model(lines)
-	if err != nil {
-		r.Fail(lib.Failure{Kind: "tie", Key: "c15/model-driver", What: err.Error()})
-		return
-	}
-	for i, o := range out {
-		if o != "ok" {
-			r.Fail(lib.Failure{Kind: "oracle", Key: "history/not-linearizable", What: "stamped history rejected by the proved checker: " + o, Input: keep[i], Actual: lines[i]})
+		if pending += len(line); pending > 96<<20 {
+			if !flush() {
+				return
+			}
 		}
 	}
+	if !flush() {
+		return
+	}
+	r.Note("running %d histories took %.1f s, validating %d stamped traces with the proved checker %.1f s", len(cfgs), tRun.Seconds(), validated, tCheck.Seconds())
+}
+
+func c15Short(s string) string {
+	if len(s) > 4000 {
+		return s[:2000] + fmt.Sprintf(" …(%d characters)… ", len(s)-4000) + s[len(s)-2000:]
+	}
+	return s
+}
+
+// c15Model validates the lines with several model-driver processes at once (the lines are independent and large:
+// the work is spread by size), results in input order.
+func c15Model(c *lib.Ctx, lines []string) ([]string, error) {
+	const k = 8
+	if len(lines) < 2*k {
+		return c.Model(lines)
+	}
+	idx := make([]int, len(lines))
+	for i := range idx {
+		idx[i] = i
+	}
+	sort.SliceStable(idx, func(a, b int) bool { return len(lines[idx[a]]) > len(lines[idx[b]]) })
+	var part [k][]int
+	var load [k]int
+	for _, i := range idx {
+		m := 0
+		for j := 1; j < k; j++ {
+			if load[j] < load[m] {
+				m = j
+			}
+		}
+		part[m] = append(part[m], i)
+		load[m] += len(lines[i]) + 1
+	}
+	out := make([]string, len(lines))
+	var mu sync.Mutex
+	var wg sync.WaitGroup
+	var first error
+	for j := 0; j < k; j++ {
+		wg.Add(1)
+		go func(ix []int) {
+			defer wg.Done()
+			sub := &lib.Ctx{ModelPath: c.ModelPath, R: &lib.Result{}}
+			in := make([]string, len(ix))
+			for n, i := range ix {
+				in[n] = lines[i]
+			}
+			res, err := sub.Model(in)
+			mu.Lock()
+			defer mu.Unlock()
+			if err != nil {
+				if first == nil {
+					first = err
+				}
+				return
+			}
+			for n, i := range ix {
+				out[i] = res[n]
+			}
+		}(part[j])
+	}
+	wg.Wait()
+	if first != nil {
+		return nil, first
+	}
+	c.R.ModelCases += len(lines)
+	return out, nil
 }
